@@ -95,7 +95,7 @@ def _run_chunk(cmd, lines, env=None, sentinel_on_short=True):
     while i < len(lines):
         data = ('\n'.join(lines[i:]) + '\n').encode()
         try:
-            p = subprocess.run(cmd, input=data, capture_output=True, env=env, timeout=900)
+            p = subprocess.run(cmd, input=data, capture_output=True, env=env, timeout=420)
             got = p.stdout.decode('utf-8', errors='replace').split('\n')
             if got and got[-1] == '':
                 got.pop()
